@@ -665,6 +665,50 @@ pub mod c08 {
     }
 }
 
+/// C09: the replication update vector of a server as plain data — the per-server timestamp sets
+/// (`range_snapshot`), the supplier's filtered view (`filter_ruv_range(trim_cid)`) and the trim cid
+/// of the transaction.
+pub mod c09 {
+    use super::*;
+    use crate::be::BackendTransaction;
+    use crate::repl::ruv::ReplicationUpdateVectorTransaction;
+    use std::collections::BTreeSet;
+
+    /// server uuid ↦ every timestamp the RUV holds for it (`ranged`)
+    pub fn ruv_ranged<'a, T: QueryServerTransaction<'a>>(qs: &mut T) -> BTreeMap<Uuid, BTreeSet<Duration>> {
+        qs.get_be_txn()
+            .get_ruv()
+            .range_snapshot()
+            .iter()
+            .map(|(u, s)| (*u, s.clone()))
+            .collect()
+    }
+
+    /// `filter_ruv_range(trim_cid)`: server uuid ↦ (ts_min, ts_max), servers whose newest change is
+    /// older than `trim_cid` left out.
+    pub fn ruv_filtered<'a, T: QueryServerTransaction<'a>>(
+        qs: &mut T,
+        trim_cid: &Cid,
+    ) -> Result<BTreeMap<Uuid, (Duration, Duration)>, OperationError> {
+        qs.get_be_txn()
+            .get_ruv()
+            .filter_ruv_range(trim_cid)
+            .map(|m| m.into_iter().map(|(u, r)| (u, (r.ts_min, r.ts_max))).collect())
+    }
+
+    pub fn read_trim_cid(qs: &QueryServerReadTransaction<'_>) -> Cid {
+        qs.trim_cid().clone()
+    }
+
+    pub fn write_trim_cid(qs: &QueryServerWriteTransaction<'_>) -> Cid {
+        qs.trim_cid().clone()
+    }
+
+    pub fn write_cid(qs: &QueryServerWriteTransaction<'_>) -> Cid {
+        qs.get_cid().clone()
+    }
+}
+
 /// C20: the pre-operation plugin runners (Base first), callable without the access check
 /// that precedes them in `create` / `modify` / `batch_modify`.
 pub mod c20 {
@@ -1222,7 +1266,13 @@ pub mod c48 {
             match m {
                 Modify::Purged(a) => out.push((true, a.clone(), None)),
                 Modify::Present(a, v) => {
-                    out.push((false, a.clone(), Some(v.to_proto_string_clone())))
+                    // the proto form a value set gives the value (`Value::to_proto_string_clone`
+                    // is partial)
+                    let s = crate::valueset::from_value_iter(std::iter::once(v.clone()))
+                        .map_err(|e| format!("value:{e:?}"))?
+                        .to_proto_string_clone_iter()
+                        .next();
+                    out.push((false, a.clone(), s))
                 }
                 other => return Err(format!("unexpected modify {other:?}")),
             }
